@@ -47,41 +47,43 @@ def model_from(arg):
 A = np.ones((3, 3))
 
 
-def fresh_wavefront(ptype):
+def fresh_wavefront(ptype, empty=False):
     import lentil
     from lentil.field import Field
     w = lentil.Wavefront(op.WL, pixelscale=op.DX, focal_length=1.0, ptype=ptype)
-    w.data = [Field(data=np.ones((3, 3), dtype=complex))]
+    # empty: a legal wavefront without any Field left (product of non-overlapping apertures, image tilted off the array)
+    w.data = [] if empty else [Field(data=np.ones((3, 3), dtype=complex))]
     w.shape = (3, 3)
     return w
 
 
-def make_plane(action):
+def make_plane(action, **kw):
+    """kw: extra Plane keyword arguments (pixelscale=... for the refused-cell variant)"""
     import lentil
     import warnings
     kind, name = action.split('_', 1)
     if kind == 'Mul':
-        return lentil.Plane(amplitude=A.copy(), ptype=name)
+        return lentil.Plane(amplitude=A.copy(), ptype=name, **kw)
     if name == 'Plane':
-        return lentil.Plane(amplitude=A.copy())
+        return lentil.Plane(amplitude=A.copy(), **kw)
     if name == 'Pupil':
-        return lentil.Pupil(amplitude=A.copy(), focal_length=2.0)     # differs from the wavefront's: a refused product must not adopt it
+        return lentil.Pupil(amplitude=A.copy(), focal_length=2.0, **kw)     # differs from the wavefront's: a refused product must not adopt it
     if name == 'Image':
-        return lentil.Image(amplitude=A.copy())
+        return lentil.Image(amplitude=A.copy(), **kw)
     if name == 'Tilt':
-        return lentil.Tilt(x=0.0, y=0.0)
+        return lentil.Tilt(x=0.0, y=0.0, **kw)
     if name == 'DispersiveTilt':
-        return lentil.DispersiveTilt(trace=[1.0, 0.0], dispersion=[1.0, op.WL])
+        return lentil.DispersiveTilt(trace=[1.0, 0.0], dispersion=[1.0, op.WL], **kw)
     if name == 'Grism':
         with warnings.catch_warnings():
             warnings.simplefilter('ignore')
-            return lentil.Grism(trace=[1.0, 0.0], dispersion=[1.0, op.WL])
+            return lentil.Grism(trace=[1.0, 0.0], dispersion=[1.0, op.WL], **kw)
     if name == 'Rotate':
         return lentil.Rotate(angle=90)
     if name == 'Flip':
         return lentil.Flip()
     if name == 'LensletArray':
-        return lentil.LensletArray(amplitude=A.copy())
+        return lentil.LensletArray(amplitude=A.copy(), **kw)
     raise ValueError(action)
 
 
@@ -127,7 +129,7 @@ def step_check(M, node, w, action, path, acc, fft=False):
     """Execute one model edge on the implementation.  Returns (next node, next wavefront) or None to prune."""
     nxt = M['succ'][node][action]
     exp = M['nodes'][nxt]
-    case = {'kind': 'path', 'init': M['nodes'][path['n0']]['wf'], 'actions': path['acts'] + [action], 'fft': fft}
+    case = {'kind': 'path', 'init': M['nodes'][path['n0']]['wf'], 'actions': path['acts'] + [action], 'fft': fft, 'empty': path.get('empty', False)}
     before = wdigest(w)
     if action.startswith('Cls_'):
         try:
@@ -161,6 +163,18 @@ def step_check(M, node, w, action, path, acc, fft=False):
             acc.violation(f'{site}:refusal-mutates-wavefront', case, 'refused operation changed the wavefront')
         if plane is not None and pdigest(make_plane(action)) != pdigest(plane):
             acc.violation(f'{site}:refusal-mutates-plane', case, 'refused operation changed the plane')
+        if plane is not None and action[4:] not in ('Rotate', 'Flip'):
+            # the cell is forbidden whatever else is wrong with the operands: a plane whose pixel scale also disagrees
+            try:
+                w * make_plane(action, pixelscale=(3 * op.DX, 5 * op.DX))
+                acc.violation(f'{site}:not-refused', case, 'forbidden cell accepted when the pixel scales differ')
+            except TypeError:
+                pass
+            except Exception as e:
+                acc.violation(f'{site}:raises:{type(e).__name__}:pixelscale-mismatch', case,
+                              f'documented refusal must be TypeError; with differing pixel scales got {e!r}')
+            if wdigest(w) != before:
+                acc.violation(f'{site}:refusal-mutates-wavefront', case, 'refused operation changed the wavefront')
         return nxt, w
     acc.cls('allowed-steps')
     if exc is not None:
@@ -175,7 +189,7 @@ def step_check(M, node, w, action, path, acc, fft=False):
     return nxt, out
 
 
-def explore(M, n0, first, depth, acc, fft=False):
+def explore(M, n0, first, depth, acc, fft=False, empty=False):
     """All model paths of length <= depth that start with `first` from initial node n0 are replayed.
     De-duplicated on (model node, implementation digest, remaining depth)."""
     memo = {}
@@ -191,22 +205,22 @@ def explore(M, n0, first, depth, acc, fft=False):
             return
         for action in sorted(M['succ'][node]):
             acc.transitions += 1
-            r = step_check(M, node, w, action, {'n0': n0, 'acts': acts}, acc, fft)
+            r = step_check(M, node, w, action, {'n0': n0, 'acts': acts, 'empty': empty}, acc, fft)
             if r is None:
                 acc.cls('pruned-after-violation')
                 continue
             rec(r[0], r[1], acts + [action], remaining - 1)
 
-    w0 = fresh_wavefront(M['nodes'][n0]['wf'])
+    w0 = fresh_wavefront(M['nodes'][n0]['wf'], empty=empty)
     acc.transitions += 1
-    r = step_check(M, n0, w0, first, {'n0': n0, 'acts': []}, acc, fft)
+    r = step_check(M, n0, w0, first, {'n0': n0, 'acts': [], 'empty': empty}, acc, fft)
     if r is not None:
         rec(r[0], r[1], [first], depth - 1)
 
 
 def t_paths(arg, acc):
     M = model_from(arg['model'])
-    explore(M, arg['n0'], arg['first'], arg['depth'], acc, arg.get('fft', False))
+    explore(M, arg['n0'], arg['first'], arg['depth'], acc, arg.get('fft', False), arg.get('empty', False))
 
 
 def run(tier, seed, acc, procs=None):
@@ -227,6 +241,7 @@ def run(tier, seed, acc, procs=None):
     for n0 in M['init']:
         for a in M['acts']:
             tasks.append(('t_paths', {'model': share, 'n0': n0, 'first': a, 'depth': depth}))
+            tasks.append(('t_paths', {'model': share, 'n0': n0, 'first': a, 'depth': depth - 1, 'empty': True}))
     acc.states += len(M['nodes'])
     acc.transitions += M['edges']
     acc.cls('tlc-distinct-states', M['tlc_states'][1])
@@ -249,12 +264,12 @@ def run(tier, seed, acc, procs=None):
 
 def replay(case, acc):
     M = model()
-    node = [n for n in M['init'] if M['nodes'][n]['wf'] == case['init']][0]
-    w = fresh_wavefront(case['init'])
+    n0 = [n for n in M['init'] if M['nodes'][n]['wf'] == case['init']][0]
+    node = n0
+    w = fresh_wavefront(case['init'], empty=case.get('empty', False))
     acts = []
     for a in case['actions']:
-        r = step_check(M, node, w, a, {'n0': [n for n in M['init'] if M['nodes'][n]['wf'] == case['init']][0], 'acts': acts},
-                       acc, case.get('fft', False))
+        r = step_check(M, node, w, a, {'n0': n0, 'acts': acts, 'empty': case.get('empty', False)}, acc, case.get('fft', False))
         if r is None:
             break
         node, w = r
